@@ -186,6 +186,30 @@ def r3(ctx, facts):
     ctx.ob("C14-R3", "serialize writes one element per (entities, markers) item with that item's marker and entity", ok, s.loc(), why)
     cnt = [bb for bb, t in s.calls() if t["callee"].get("name") == "serialize_seq"]
     ctx.ob("C14-R3", "serialize opens exactly one sequence", len(cnt) == 1, s.loc(), "" if len(cnt) == 1 else "%d serialize_seq calls" % len(cnt))
+    # announced length: None, or the count of the same (entities, markers) join that is then written
+    for bb in cnt:
+        lo = s.arg_origin(bb, 1)
+        okl = False
+        if lo[0] == "agg":
+            rv = s.blocks[lo[1]]["stmts"][lo[2]]["rv"]
+            if rv.get("variant") == "None":
+                okl = True
+            elif rv.get("variant") == "Some":
+                deps = s.deps(s.operand_origin(rv["ops"][0]))
+                okl = any(d[0] == "call" and s.term(d[1])["callee"].get("name") == "count" for d in deps) and \
+                    any(d[0] == "call" and s.term(d[1])["callee"].get("path") == "join::Join::join" for d in deps)
+        ctx.ob("C14-R3", "serialize announces the number of elements it writes (or none)", okl, s.loc(bb),
+               "" if okl else "the length handed to serialize_seq is not the count of the joined (entities, markers): length-prefixed formats lose or misread elements")
+    sr = facts.body("saveload::ser::SerializeComponents::serialize_recursive")
+    if sr:
+        for bb, t in sr.calls():
+            if t["callee"].get("name") != "serialize_seq":
+                continue
+            lo = sr.arg_origin(bb, 1)
+            okn = lo[0] == "agg" and sr.blocks[lo[1]]["stmts"][lo[2]]["rv"].get("variant") == "None"
+            ctx.ob("C14-R3", "serialize_recursive announces no length (elements are discovered while writing)", okn, sr.loc(bb),
+                   "" if okn else "serialize_recursive announces a length before the recursion has marked the reachable entities: length-prefixed "
+                   "formats cut the sequence short")
 
 
 def r4(ctx, facts):
